@@ -136,6 +136,10 @@ def _body(si, mask, sepi):
         check(got == exp, f'pair {i} = {(lo, hi)} of {idx} exports data lines {got}, fragment {i} has {exp}; fragments {texts}')
         out2 = kp.export(doc, kp.ExportOptions(from_measure=lo, to_measure=hi))
         check(out2 == out, f'pair {i} = {(lo, hi)} through ExportOptions + export gives {out2!r}, through dumps {out!r}')
+        # the same pair asked again (same route, same document) answers the same, every time
+        for n in (2, 3):
+            rep = kp.dumps(doc, from_measure=lo, to_measure=hi)
+            check(rep == out, f'pair {i} = {(lo, hi)} exported for the {n}th time from the same document gives {rep!r}, the first time {out!r}')
     return True
 
 
